@@ -1,10 +1,94 @@
-"""C01 bounded layer: whole-run scenarios (see rtc/solver_runs.py)"""
+"""C01 bounded layer: whole-run scenarios (see rtc/solver_runs.py) and the one-line interfaces started from a point"""
+import io
+import math
+import random
+import contextlib
 from .solver_runs import run_prop, replay_prop
+from .common import Result, pmap, seed_all, jsonable, Recorder, COSTS
+
+P = 'C01/bounded/wrappers/'
+
+
+def _wrapper_case(sc):
+    """fmin / fmin_powell / diffev / diffev2 started from the POINT x0 (any number of parameters, also 2): x0 is evaluated,
+    the reported best is an evaluated point with its true energy, and it is never worse than f(x0)"""
+    import mystic.solvers as ms
+    seed_all(sc['seed'])
+    f = COSTS[sc['cost']]
+    rec = Recorder(f)
+    x0 = list(sc['x0'])
+    kw = dict(full_output=1, disp=0, maxiter=sc['maxiter'])
+    if sc['wrapper'] in ('diffev', 'diffev2'):
+        kw['npop'] = sc['npop']
+    with contextlib.redirect_stdout(io.StringIO()):
+        out = getattr(ms, sc['wrapper'])(rec, x0, **kw)
+    best, be = [float(v) for v in out[0]], float(out[1])
+    viol = []
+    pts = [tuple(float(v) for v in c[0]) for c in rec.calls]
+    if tuple(float(v) for v in x0) not in pts:
+        viol.append(('start-point-never-evaluated', 'x0 %r is not among the %d evaluated points (first: %r)' % (x0, len(pts), pts[:2])))
+    f0 = float(f(tuple(x0)))
+    if be > f0 and not math.isnan(be):
+        viol.append(('best-worse-than-the-start-point', 'reported best energy %r at %r, f(x0)=%r at x0=%r' % (be, best, f0, x0)))
+    if tuple(best) not in pts:
+        viol.append(('reported-best-was-never-evaluated', 'best %r' % (best,)))
+    elif float(f(tuple(best))) != be:
+        viol.append(('reported-energy-is-not-the-cost-at-the-reported-best', 'best %r reported %r true %r' % (best, be, float(f(tuple(best))))))
+    return viol, len(pts)
+
+
+def _work(sc):
+    res = Result('', '')
+    try:
+        viol, n = _wrapper_case(sc)
+    except Exception as e:      # noqa -- harness / scenario failure is not a violation of C01
+        res.extra['wrappers_aborted'] = res.extra.get('wrappers_aborted', 0) + 1
+        return res.part()
+    res.case('wrapper|%s|%d|%s|%s' % (sc['wrapper'], len(sc['x0']), sc['cost'], sc['start']), nontrivial=n > 1)
+    for clause, detail in viol:
+        res.violation(P + sc['wrapper'] + '/' + clause, detail, jsonable(sc))
+    return res.part()
+
+
+OPTIMA = {'sphere': 0.0, 'shifted': 1.0}
+
+
+def _scenarios(tier, seed):
+    rng = random.Random(seed * 7919 + 1)
+    out = []
+    for i in range(24 if tier == 'quick' else 400):
+        n = rng.choice([1, 2, 2, 2, 3, 4])
+        cost = rng.choice(sorted(COSTS))
+        start = rng.choice(['optimum', 'near', 'far'])
+        if start == 'optimum' and cost in OPTIMA:
+            x0 = [OPTIMA[cost]] * n
+        elif start == 'near':
+            x0 = [rng.choice([-1.0, 1.0, 0.5]) * (1 + 0.001 * k) for k in range(n)]
+        else:
+            x0 = [rng.uniform(-3.0, 3.0) for _ in range(n)]
+        if n == 2 and x0[0] == x0[1]:
+            x0[1] = x0[0] + (0.0 if start == 'optimum' and cost in OPTIMA else 0.25)
+        out.append(dict(family='wrapper', wrapper=rng.choice(['fmin', 'fmin_powell', 'diffev', 'diffev2', 'diffev', 'diffev2']),
+                        cost=cost, x0=x0, start=start, maxiter=rng.choice([1, 3, 10]), npop=rng.choice([4, 6, 10]),
+                        seed=rng.randrange(10 ** 6)))
+    return out
 
 
 def run(tier='quick', seed=0):
-    return run_prop('C01', tier, seed)
+    out = run_prop('C01', tier, seed)
+    res = Result('', '')
+    for part in pmap(_work, _scenarios(tier, seed)):
+        res.merge(part)
+    out['evaluations'] += res.evaluations
+    out['distinct_nontrivial'] += len(res.distinct)
+    out['violations'] += res.violations
+    out['rule'] += ('; the one-line interfaces fmin / fmin_powell / diffev / diffev2 started from a point of 1-4 parameters (at, near '
+                    'or far from the optimum, 1-10 iterations): x0 is evaluated, the best is an evaluated point with its true '
+                    'energy and never worse than f(x0)')
+    return out
 
 
 def replay(inp):
+    if inp.get('family') == 'wrapper':
+        return not _wrapper_case(inp)[0]
     return replay_prop('C01', inp)
